@@ -10,6 +10,7 @@ BOUNDED layer : the contracts
                 evaluated on the real functions over the automaton domain of DESIGN 2.5.
 """
 import random
+from fractions import Fraction
 
 from props import common
 from props.common import num_close, sig
@@ -170,6 +171,31 @@ def check_case(case):
                     viol(ob, "result-not-in-semiring: " + type(got).__name__, func, None, (q, got), exp[q])
                 elif not same(sr, val(got), exp[q]):
                     viol(ob, "wrong-value", func, None, (q, val(got)), exp[q])
+    # ---- a machine derived from m AFTER m has answered queries (its epsilon-removed form, graphs and backward weights are memoised
+    # on the object): the copy plus one more arc must be evaluated on its own arcs, not on m's memoised results
+    # (this is how kleene_plus / + / * build their results; strengthened after seeded change C11-8)
+    ini = sorted((q for q, w in sa.start.items() if not ops.is_zero(w)), key=repr)
+    fin = sorted((q for q, w in sa.stop.items() if not ops.is_zero(w)), key=repr)
+    if ini and fin:
+        st, c = gcall(CALL_TIMEOUT, lambda: m.spawn(keep_init=True, keep_arcs=True, keep_stop=True))
+        out["n"] += 1
+        if st != "ok":
+            viol(OB_CALL, fail_kind(st, c), "spawn(keep_init, keep_arcs, keep_stop)", None, c, "a copy")
+        else:
+            sym = V[0]
+            extra = (fin[0], sym, ini[0], Fraction(1, 4))
+            a2 = type(a)(a.states, dict(a.start), dict(a.stop), list(a.arcs) + [extra])
+            if ratspec.eps_converges(a2):
+                sa2 = dom_wfsa.spec_automaton(a2, sr)
+                gcall(CALL_TIMEOUT, lambda: c.add_arc(extra[0], sym, extra[2], conv(extra[3])))
+                for x in xs[:40]:
+                    st, v = gcall(CALL_TIMEOUT, c, x)
+                    out["n"] += 1
+                    exp = fsaspec.wfsa_weight(ops, sa2, x)
+                    if st != "ok":
+                        viol(OB_CALL, fail_kind(st, v), "spawn(..).add_arc(..).__call__", x, v, exp)
+                    elif dom_wfsa.in_sr(v, R) and not same(sr, val(v), exp):
+                        viol(OB_CALL, "wrong-value: derived copy answers from the source's memoised results", "spawn(..).add_arc(..).__call__", x, val(v), exp)
     if nontrivial:
         out["keys"].append(sig(case["name"], sr, case["cls"], case["ren"]))
     if case["name"] in ("eps_cycle2", "nested_eps_cycles") and sr == "Q":
